@@ -29,7 +29,13 @@ from guppylang_internals.tracing.unpacking import (
     update_packed_value,
 )
 from guppylang_internals.tracing.util import capture_guppy_errors, tracing_except_hook
-from guppylang_internals.tys.ty import FunctionType, InputFlags, type_to_row, unify
+from guppylang_internals.tys.ty import (
+    FunctionType,
+    InputFlags,
+    TupleType,
+    type_to_row,
+    unify,
+)
 
 if TYPE_CHECKING:
     import ast
@@ -89,7 +95,8 @@ def trace_function(
 
         # Unpack regular returns
         out_tys = type_to_row(out_obj._ty)
-        if len(out_tys) > 1:
+        # Tuples of every length are returned as a row, also 1-tuples
+        if isinstance(out_obj._ty, TupleType) and not out_obj._ty.preserve:
             regular_returns: list[Wire] = list(
                 builder.add_op(ops.UnpackTuple(), out_obj._use_wire(None)).outputs()
             )
